@@ -59,10 +59,10 @@ const c28Required = "required/*"
 var c28RequiredKinds = []string{"Int32", "Int64", "Uint32", "Uint64", "Sint32", "Sint64", "Fixed32", "Fixed64", "Float", "Double", "Bool", "String", "Bytes", "Message", "Group"}
 
 var c28MutAll = []string{"set", "set", "set", "set-zero", "clear", "clear", "set-msg-empty", "mutable-msg", "list-append", "list-append", "list-set", "list-truncate", "map-set", "map-set", "map-clear",
-	"oneof-set", "oneof-set", "oneof-msg-mutable", "set-unknown", "ext-set", "ext-clear", "merge", "decode-oneof-multi", "roundtrip-bin", "roundtrip-json", "roundtrip-text", "readonly-write", "check-encoded", "json-two-members", "text-two-members", "presence-sweep", "emptied-view", "emptied-view", "gen-set", "gen-set", "gen-clear"}
-var c28MutC11 = []string{"set", "set", "set-zero", "set-zero", "set-zero", "clear", "clear", "presence-sweep", "emptied-view", "gen-set", "gen-set", "gen-clear", "set-msg-empty", "mutable-msg", "list-append", "list-truncate", "map-set", "map-clear", "oneof-set", "ext-set", "ext-clear",
+	"oneof-set", "oneof-set", "oneof-msg-mutable", "set-unknown", "ext-set", "ext-clear", "merge", "decode-oneof-multi", "roundtrip-bin", "roundtrip-json", "roundtrip-text", "readonly-write", "check-encoded", "json-two-members", "text-two-members", "presence-sweep", "emptied-view", "emptied-view", "gen-set", "gen-set", "gen-clear", "gen-set-msg", "gen-clear-msg"}
+var c28MutC11 = []string{"set", "set", "set-zero", "set-zero", "set-zero", "clear", "clear", "presence-sweep", "emptied-view", "gen-set", "gen-set", "gen-clear", "gen-set-msg", "gen-clear-msg", "set-msg-empty", "mutable-msg", "list-append", "list-truncate", "map-set", "map-clear", "oneof-set", "ext-set", "ext-clear",
 	"roundtrip-bin", "roundtrip-bin", "roundtrip-json", "roundtrip-text", "check-encoded", "check-encoded", "merge"}
-var c28MutC12 = []string{"gen-set", "gen-set", "gen-clear", "oneof-set", "oneof-set", "oneof-set", "oneof-set", "oneof-msg-mutable", "oneof-msg-mutable", "clear", "set", "merge", "merge", "decode-oneof-multi", "decode-oneof-multi", "decode-oneof-multi",
+var c28MutC12 = []string{"gen-set", "gen-set", "gen-clear", "gen-set-msg", "gen-clear-msg", "oneof-set", "oneof-set", "oneof-set", "oneof-set", "oneof-msg-mutable", "oneof-msg-mutable", "clear", "set", "merge", "merge", "decode-oneof-multi", "decode-oneof-multi", "decode-oneof-multi",
 	"roundtrip-bin", "roundtrip-json", "roundtrip-text", "json-two-members", "json-two-members", "text-two-members", "text-two-members", "set-msg-empty"}
 var c28Reads = []string{"render", "render", "range", "has", "get", "which", "unknown", "len", "descriptor"}
 
@@ -592,6 +592,53 @@ func (p *c28Pair) mutate(op *scn.Op, newMsg func() proto.Message) string {
 			}
 			if !same {
 				return fmt.Sprintf("value: generated Get%s returns %v right after Set%s(%v)", name, got.Interface(), name, arg.Interface())
+			}
+		}
+	case "gen-set-msg", "gen-clear-msg":
+		// generated SetX(*T) / ClearX() / HasX() of a singular message field (hybrid and opaque APIs), also
+		// for message-typed oneof members
+		fd := pickFD(md, op.N, isSingularMsg)
+		if fd == nil || !m.IsValid() {
+			return ""
+		}
+		gm := reflect.ValueOf(m.Interface())
+		name := strs.GoCamelCase(string(fd.Name()))
+		has := gm.MethodByName("Has" + name)
+		if op.Op == "gen-clear-msg" {
+			clr := gm.MethodByName("Clear" + name)
+			if !clr.IsValid() || clr.Type().NumIn() != 0 {
+				return ""
+			}
+			clr.Call(nil)
+			am.Clear(fd)
+			if has.IsValid() && has.Type().NumIn() == 0 && has.Call(nil)[0].Bool() {
+				return fmt.Sprintf("has: generated Has%s is true right after Clear%s", name, name)
+			}
+			return ""
+		}
+		set := gm.MethodByName("Set" + name)
+		if !set.IsValid() || set.Type().NumIn() != 1 || set.Type().In(0).Kind() != reflect.Ptr || set.Type().In(0).Elem().Kind() != reflect.Struct {
+			return ""
+		}
+		arg := reflect.New(set.Type().In(0).Elem())
+		pm, ok := arg.Interface().(proto.Message)
+		if !ok || pm.ProtoReflect().Descriptor().FullName() != fd.Message().FullName() {
+			return ""
+		}
+		sub := model.NewMsg(fd.Message())
+		if sf := pickFD(fd.Message(), op.M, isSingularScalar); sf != nil && r.Bool() {
+			v := c28Value(r, sf, false)
+			sub.SetScalar(sf, v)
+			pm.ProtoReflect().Set(sf, v.ToValue())
+		}
+		set.Call([]reflect.Value{arg})
+		am.SetMsg(fd, sub)
+		if has.IsValid() && has.Type().NumIn() == 0 && !has.Call(nil)[0].Bool() {
+			return fmt.Sprintf("has: generated Has%s is false right after Set%s of a non-nil message", name, name)
+		}
+		if get := gm.MethodByName("Get" + name); get.IsValid() && get.Type().NumIn() == 0 {
+			if got := get.Call(nil)[0]; got.Kind() == reflect.Ptr && got.Pointer() != arg.Pointer() {
+				return fmt.Sprintf("value: generated Get%s does not return the message given to Set%s", name, name)
 			}
 		}
 	case "set-msg-empty":
